@@ -24,7 +24,8 @@ def main(tier, replay=None):
                 "a small and an over-size body), de-duplicated on the server's own transaction state, to depth %d; 38 command lines (HELO/EHLO/"
                 "RSET/NOOP/VRFY/HELP/unknown/QUIT/DATA, 6 MAIL and 20 RCPT forms: exact, dot-wildcard, mixed case, cdb-only, foreign, no @, "
                 "source route, quoted, backslash, bracketless, IP literals, 899/903-byte and literal-growing addresses); states = distinct "
-                "server states, transitions = commands executed" % depth)
+                "server states, transitions = commands executed; every transition out of a state of depth <= 2 is repeated with the line ended by a bare LF and "
+                "pipelined with a following NOOP in the same read: replies, server state and submission must not differ" % depth)
     res.assumptions = ["reference transaction machine and rcpthosts/badmailfrom policy written from RFC 5321 and qmail-smtpd(8)",
                        "network and queue are harness stand-ins (smtpd_env.h); the queue side is C07's subject"]
     res.require_nonzero("evaluations", "states", "transitions", "recipients_accepted", "recipients_refused", "messages_submitted")
